@@ -94,20 +94,24 @@ func (s stringVal) Equals(v value) bool {
 	return s == s2
 }
 
+// Index returns the character (unicode code point) at idx as a string.
 func (s stringVal) Index(idx value) (value, error) {
-	index, err := normalizeIndex(idx, len(s), indexExpression)
+	runes := []rune(string(s))
+	index, err := normalizeIndex(idx, len(runes), indexExpression)
 	if err != nil {
 		return nil, err
 	}
-	return s[index : index+1], nil
+	return stringVal(runes[index : index+1]), nil
 }
 
+// Slice returns the characters (unicode code points) in [start, end).
 func (s stringVal) Slice(start, end value) (value, error) {
-	startIdx, endIdx, err := normalizeSliceIndices(start, end, len(s))
+	runes := []rune(string(s))
+	startIdx, endIdx, err := normalizeSliceIndices(start, end, len(runes))
 	if err != nil {
 		return nil, err
 	}
-	return s[startIdx:endIdx], nil
+	return stringVal(runes[startIdx:endIdx]), nil
 }
 
 type arrayVal struct {
